@@ -455,7 +455,7 @@ func copyTimeRun(c *fw.Ctx, kinds ...string) {
 			continue
 		}
 		pc, i := pc, i
-		c.Do(func() any { return c09Spec{Form: "copytime", Op: i, Text: pc.source()} }, func() *fw.Violation { v, _, _ := pc.check(c); return v })
+		c.Do(func() any { return c09Spec{Form: "copytime", Op: i, Text: pc.source()} }, func() *fw.Violation { return pc.mustCheck(c, "copy time") })
 	}
 }
 
@@ -505,9 +505,9 @@ func init() {
 				for i, pc := range c09CopyTimePrograms() {
 					pc, i := pc, i
 					c.Do(func() any { return c09Spec{Form: "copytime", Op: i, Text: pc.source()} }, func() *fw.Violation {
-						v, res, skipped := pc.check(c)
-						if !skipped && v == nil {
-							c.State("copy time: " + res.Kind)
+						v := pc.mustCheck(c, "copy time")
+						if v == nil {
+							c.State("copy time")
 						}
 						return v
 					})
